@@ -2,12 +2,20 @@ package main
 
 // C04 — building never crashes, hangs or leaks (DESIGN.md §5 C04).
 
-import "go/types"
+import (
+	"go/ast"
+	"go/token"
+	"go/types"
+	"strings"
+)
 
 func init() {
 	register("C04", &ruleSet{
-		explain: "R-2: every index and one-bound slice expression on the scanned buffer in the functions reachable from the lexer goroutine entry (which runs with no recover, so a fault kills the process) is in range on every path, by a linear guard fact or by a precondition discharged at every call site.",
-		notCov:  []string{"internal panics of parser/checker/emitter on the calling goroutine", "termination of lexer and parser loops", "slices with two symbolic bounds (listed in notes)"},
+		explain: "R-1: every function that starts the lexer goroutine's owner registers, immediately after, a deferred call that drains the token channel, and the goroutine closes that channel on every non-panicking exit (no leaked goroutine). " +
+			"R-2: every index and one-bound slice expression on the scanned buffer in the functions reachable from the lexer goroutine entry (which runs with no recover, so a fault kills the process) is in range on every path, by a linear guard fact, by a precondition discharged at every call site, or by a nil-return postcondition of the callee. " +
+			"R-3: the disassembler's name tables are total over the opcode and condition enums and are indexed with non-negative values.",
+		notCov: []string{"internal panics of parser/checker/emitter on the calling goroutine (no catch-all exists in Build*; declared 'not implemented' gaps are listed in DESIGN.md §7, not decided here)", "termination of lexer and parser loops", "slices with two symbolic bounds (listed in notes)", "index faults outside the lexer (parser/checker/emitter run on the caller's goroutine)"},
+		trusted: []string{"bytes.Index*/HasPrefix and utf8.DecodeRune result contracts", "the reviewed exception table c04Exceptions (one symbol, one reason each)"},
 		run:     runC04,
 	})
 }
@@ -35,11 +43,352 @@ func runC04(r *Run) {
 			nonTest = append(nonTest, f)
 		}
 	}
-	scan := r.NeedFunc("R-2", "internal/compiler", "(*lexer).scan")
-	if scan == nil {
+	entry := c04GoroutineEntry(r, nonTest)
+	if entry == nil {
 		return
 	}
-	fns := funcsReachableInPkg(r.P, nonTest, scan)
+	c04R1(r, nonTest, entry)
+	fns := funcsReachableInPkg(r.P, nonTest, entry)
 	runBounds(r, boundsConfig{rule: "R-2", funcs: fns, allFuncs: nonTest, exceptions: c04Exceptions,
-		noLift: map[*types.Func]bool{scan.Obj: true}})
+		noLift: map[*types.Func]bool{entry.Obj: true}})
+	r.Require("R-2", 150)
+	c04R3(r)
+}
+
+// c04GoroutineEntry resolves, by role, the method started by the `go` statements of package compiler.
+func c04GoroutineEntry(r *Run, fns []*FuncInfo) *FuncInfo {
+	found := map[*types.Func]bool{}
+	for _, fi := range fns {
+		ast.Inspect(fi.Decl.Body, func(n ast.Node) bool {
+			if g, ok := n.(*ast.GoStmt); ok {
+				if c := callee(fi.Pkg.TypesInfo, g.Call); c != nil {
+					found[c] = true
+				}
+			}
+			return true
+		})
+	}
+	if len(found) != 1 {
+		r.Anchor("R-1", "the single function started with `go` in package compiler (the lexer's scan)", false)
+		return nil
+	}
+	for f := range found {
+		for _, fi := range fns {
+			if fi.Obj == f {
+				return fi
+			}
+		}
+	}
+	r.Anchor("R-1", "declaration of the goroutine entry", false)
+	return nil
+}
+
+// c04R1: goroutine lifetime pairing.
+func c04R1(r *Run, fns []*FuncInfo, entry *FuncInfo) {
+	const R = "R-1"
+	info := entry.Pkg.TypesInfo
+	// (a) the channel the goroutine closes, and that it closes it on every non-panicking exit
+	var chanField *types.Var
+	isClose := func(n ast.Node) bool {
+		ok := false
+		ast.Inspect(n, func(m ast.Node) bool {
+			if c, isCall := m.(*ast.CallExpr); isCall && isBuiltinCall(info, c, "close") && len(c.Args) == 1 {
+				if sel, isSel := ast.Unparen(c.Args[0]).(*ast.SelectorExpr); isSel {
+					if v, isVar := info.Uses[sel.Sel].(*types.Var); isVar && v.IsField() {
+						chanField = v
+						ok = true
+					}
+				}
+			}
+			return true
+		})
+		return ok
+	}
+	g := r.P.CFGOf(entry)
+	exits := g.ExitsWithout(g.G.Blocks[0], 0, isClose)
+	o := r.Ob(R, entry.Name()+"#close-on-every-exit", entry.Decl.Pos())
+	if chanField == nil {
+		o.Unknown("the goroutine entry closes no channel field: the stop protocol changed shape")
+		return
+	}
+	if len(exits) == 0 {
+		o.OK("every return of %s is preceded by close(%s)", entry.Name(), chanField.Name())
+	} else {
+		o.Bad("return at %s is reachable without close(%s): a reader ranging over the channel would block forever", r.P.Pos(exits[0].Pos()), chanField.Name())
+	}
+	// (b) the stop method: drains that channel (for range over the field)
+	var stop *FuncInfo
+	for _, fi := range fns {
+		if fi.Decl.Recv == nil || fi.Obj == entry.Obj {
+			continue
+		}
+		drains := false
+		ast.Inspect(fi.Decl.Body, func(n ast.Node) bool {
+			if rs, ok := n.(*ast.RangeStmt); ok {
+				if sel, ok := ast.Unparen(rs.X).(*ast.SelectorExpr); ok && fi.Pkg.TypesInfo.Uses[sel.Sel] == chanField {
+					drains = true
+				}
+			}
+			return true
+		})
+		if drains {
+			if stop != nil {
+				stop = nil
+				break
+			}
+			stop = fi
+		}
+	}
+	if !r.Anchor(R, "the method draining the token channel until it is closed (lexer.Stop)", stop != nil) {
+		return
+	}
+	// (c) spawners and their callers
+	var spawners []*FuncInfo
+	for _, fi := range fns {
+		has := false
+		ast.Inspect(fi.Decl.Body, func(n ast.Node) bool {
+			if gs, ok := n.(*ast.GoStmt); ok && callee(fi.Pkg.TypesInfo, gs.Call) == entry.Obj {
+				has = true
+			}
+			return true
+		})
+		if has {
+			spawners = append(spawners, fi)
+		}
+	}
+	r.Stats["R-1_spawners"] = len(spawners)
+	ncallers := 0
+	for _, fi := range fns {
+		inf := fi.Pkg.TypesInfo
+		var spawnCalls []*ast.CallExpr
+		ast.Inspect(fi.Decl.Body, func(n ast.Node) bool {
+			if c, ok := n.(*ast.CallExpr); ok {
+				for _, sp := range spawners {
+					if callee(inf, c) == sp.Obj {
+						spawnCalls = append(spawnCalls, c)
+					}
+				}
+			}
+			return true
+		})
+		for _, sc := range spawnCalls {
+			ncallers++
+			o := r.Ob(R, fi.Name()+"#stop-deferred-after-"+exprStr(sc.Fun), sc.Pos())
+			cg := r.P.CFGOf(fi)
+			blk, idx := cg.Locate(sc)
+			if blk == nil {
+				o.Unknown("spawn call not found in the control-flow graph (inside a function literal?)")
+				continue
+			}
+			// the next CFG node that contains a call or can leave the function must be the defer
+			okDefer := false
+			why := "no deferred call to " + stop.Name() + " follows the spawn in the same basic block"
+			for i := idx + 1; i < len(blk.Nodes); i++ {
+				n := blk.Nodes[i]
+				if d, ok := n.(*ast.DeferStmt); ok {
+					if c04DeferStops(inf, d, stop.Obj) {
+						okDefer = true
+					} else {
+						why = "the first deferred call after the spawn does not call " + stop.Name() + " unconditionally"
+					}
+					break
+				}
+				if len(calls(n, true)) > 0 {
+					why = "a call at " + r.P.Pos(n.Pos()) + " can panic between the spawn and the deferred stop"
+					break
+				}
+				if _, isRet := n.(*ast.ReturnStmt); isRet {
+					why = "the function can return before the stop is deferred"
+					break
+				}
+			}
+			if okDefer {
+				o.OK("defer calling %s is registered right after the spawn, before any call or return", stop.Name())
+			} else {
+				o.Bad("%s: the lexer goroutine would stay blocked on its token channel after %s returns or panics", why, fi.Name())
+			}
+		}
+	}
+	r.Require(R, 3)
+	_ = ncallers
+}
+
+// c04DeferStops: the deferred function calls stop as an unconditional top-level statement (or is the call itself).
+func c04DeferStops(info *types.Info, d *ast.DeferStmt, stop *types.Func) bool {
+	if callee(info, d.Call) == stop {
+		return true
+	}
+	lit, ok := ast.Unparen(d.Call.Fun).(*ast.FuncLit)
+	if !ok {
+		return false
+	}
+	for _, st := range lit.Body.List {
+		if es, ok := st.(*ast.ExprStmt); ok {
+			if c, ok := es.X.(*ast.CallExpr); ok && callee(info, c) == stop {
+				return true
+			}
+		}
+		// statements before the stop call must not be able to leave the closure
+		switch st.(type) {
+		case *ast.AssignStmt, *ast.DeclStmt:
+			if len(calls(st, true)) > 0 {
+				return false
+			}
+		default:
+			return false
+		}
+	}
+	return false
+}
+
+// c04R3: disassembler tables.
+func c04R3(r *Run) {
+	const R = "R-3"
+	pk := r.P.Pkg("internal/compiler")
+	for _, tc := range []struct{ enum, table string }{{"Operation", "operationName"}, {"Condition", "conditionName"}} {
+		enum := r.P.Named("internal/runtime", tc.enum)
+		// the table: a package-level array of strings whose composite literal is keyed by constants of the enum
+		var lit *ast.CompositeLit
+		var tvar *types.Var
+		for _, f := range pk.Syntax {
+			for _, d := range f.Decls {
+				gd, ok := d.(*ast.GenDecl)
+				if !ok || gd.Tok != token.VAR {
+					continue
+				}
+				for _, sp := range gd.Specs {
+					vs := sp.(*ast.ValueSpec)
+					for i, v := range vs.Values {
+						cl, ok := v.(*ast.CompositeLit)
+						if !ok || i >= len(vs.Names) {
+							continue
+						}
+						keyed := 0
+						for _, el := range cl.Elts {
+							if kv, ok := el.(*ast.KeyValueExpr); ok {
+								if c := constOf(pk.TypesInfo, kv.Key); c != nil && enum != nil && types.Identical(c.Type(), enum) {
+									keyed++
+								}
+							}
+						}
+						if keyed > 0 && keyed == len(cl.Elts) {
+							if _, isArr := pk.TypesInfo.TypeOf(cl).Underlying().(*types.Array); isArr {
+								if lit != nil && vs.Names[i].Name != tc.table {
+									continue
+								}
+								lit = cl
+								tvar, _ = pk.TypesInfo.Defs[vs.Names[i]].(*types.Var)
+							}
+						}
+					}
+				}
+			}
+		}
+		if !r.Anchor(R, "array literal keyed by runtime."+tc.enum+" in package compiler ("+tc.table+")", lit != nil && enum != nil && tvar != nil) {
+			continue
+		}
+		elems, _ := keyedElems(pk.TypesInfo, lit)
+		arr := pk.TypesInfo.TypeOf(lit).Underlying().(*types.Array)
+		for _, c := range EnumConsts(enum) {
+			v, _ := constantInt64(c)
+			o := r.Ob(R, tvar.Name()+"["+c.Name()+"]", lit.Pos())
+			e, has := elems[v]
+			switch {
+			case v < 0 || v >= arr.Len():
+				o.Bad("constant %s = %d is outside the array (length %d): indexing %s with it panics in Disassemble", c.Name(), v, arr.Len(), tvar.Name())
+			case !has:
+				// inside the array: indexing yields "", which is wrong output but not a panic — outside C04
+				o.OK("inside the array (length %d) but without an entry: disassembled with an empty name, no panic", arr.Len())
+				r.Note("cosmetic: %s has no entry for %s (empty name in the disassembly); not a violation of C04", tvar.Name(), c.Name())
+			default:
+				s, _ := stringValue(pk.TypesInfo, e)
+				o.OK("entry %q", s)
+			}
+		}
+		// index sites: the index is a constant-case of a switch on the same value, or provably ≥ 0
+		for _, fi := range r.P.Funcs("internal/compiler") {
+			if r.P.isTestFile(fi.File) {
+				continue
+			}
+			info := fi.Pkg.TypesInfo
+			var ba *boundsAnalysis
+			ast.Inspect(fi.Decl.Body, func(n ast.Node) bool {
+				ix, ok := n.(*ast.IndexExpr)
+				if !ok {
+					return true
+				}
+				id, ok := ast.Unparen(ix.X).(*ast.Ident)
+				if !ok || info.Uses[id] != tvar {
+					return true
+				}
+				// only values of the enum type itself are negated by the emitter (constant-operand opcodes);
+				// operands holding a condition are emitted from runtime.Condition values and stay ≥ 0
+				if it := info.TypeOf(ix.Index); it == nil || !types.Identical(it, enum) {
+					r.Stats[R+"_operand_indexed_sites"]++
+					return true
+				}
+				o := r.Ob(R, fi.Name()+"#"+exprStr(ix), ix.Pos())
+				if why, ok := c04InConstCase(r.P, fi, ix); ok {
+					o.OK("%s", why)
+					return true
+				}
+				if ba == nil {
+					ba = newBoundsAnalysis(r.P, []*FuncInfo{fi})
+					ba.analyse(fi, nil)
+				}
+				bf := ba.results[fi.Obj]
+				if e, ok := bf.linOf(ix.Index); ok {
+					if st := bf.stateAt(ix); st != nil {
+						if ok, fact := st.proves(newLin().add(e, -1)); ok {
+							o.OK("index is non-negative: %s", fact)
+							return true
+						}
+					}
+				}
+				o.Bad("index %s of %s can be negative here (constant-operand instructions carry the negated opcode): nothing on every path normalises it", exprStr(ix.Index), tvar.Name())
+				return true
+			})
+		}
+	}
+	r.Require(R, 100)
+}
+
+// c04InConstCase: the index expression (modulo a conversion) is the tag of an enclosing switch and the
+// site lies in a clause listing only non-negative constants.
+func c04InConstCase(p *Prog, fi *FuncInfo, ix *ast.IndexExpr) (string, bool) {
+	info := fi.Pkg.TypesInfo
+	par := p.Parents(fi.File)
+	strip := func(e ast.Expr) string {
+		e = ast.Unparen(e)
+		if c, ok := e.(*ast.CallExpr); ok && len(c.Args) == 1 {
+			if tv, ok := info.Types[c.Fun]; ok && tv.IsType() {
+				e = ast.Unparen(c.Args[0])
+			}
+		}
+		return exprStr(e)
+	}
+	want := strip(ix.Index)
+	var child ast.Node = ix
+	for n := par[ix]; n != nil; n = par[n] {
+		if cc, ok := n.(*ast.CaseClause); ok {
+			if sw, ok := par[par[cc]].(*ast.SwitchStmt); ok && sw.Tag != nil && strip(sw.Tag) == want && len(cc.List) > 0 {
+				all := true
+				for _, e := range cc.List {
+					if v, ok := intValue(info, e); !ok || v < 0 {
+						all = false
+					}
+				}
+				if all {
+					return "inside a clause of `switch " + exprStr(sw.Tag) + "` listing non-negative constants only", true
+				}
+			}
+		}
+		if _, ok := n.(*ast.FuncLit); ok {
+			break
+		}
+		child = n
+	}
+	_ = child
+	_ = strings.TrimSpace
+	return "", false
 }
